@@ -64,7 +64,7 @@ def shard(idx, n, seed, tier, params):
             in_dead = lambda f, ln: any(f == df and l0 <= ln <= l1 for df, l0, l1 in dead_ranges)
             # `super` tokens count as usages of the scope they leave; they are not identifier occurrences and are not judged
             flines = {fn: t.split("\n") for fn, t in files.items()}
-            supers = {(o["file"], o["line"], o["c0"]) for o in r.occurrences if flines[o["file"]][o["line"]][o["c0"]:o["c1"]] == "super"}
+            supers = {(o["file"], o["line"], o["c0"]) for o in r.occurrences if flines[o["file"]][o["line"]][o["c0"]:o["c1"]].lower() == "super"}
             fuzzy = set()       # definitions with uses inside uninvoked macros: their reference sets are not judged
             for o in occs:
                 if o.get("site") is not None and any(a.uid in dead_macros for a in o["site"].chain()):
